@@ -214,6 +214,53 @@ theorem gen_attack (o : NumOps α) (a d : α) (s : Arg α) (n : Nat) :
       cases o.trunc (o.add a o.half) <;> cases o.trunc (o.add d o.half) <;> try rfl
       cases o.isZero a <;> cases o.isZero d <;> simp
 
+/-! ### `ones` / `zeros` / `impulse`: the optional duration, the fall-through `while True` -/
+
+theorem gen_const_some (o : NumOps α) (v d : α) (n : Nat) :
+    (if (o.isInf d && o.lt o.zero d) = true then takeRun n (List.replicate n v)
+      else runPre (o.trunc (o.add o.half d)) fun t0 => takeRun n (rangeG t0 n (fun (_ : Nat) => v)))
+    = constG o v (some d) n := by
+  simp only [constG, endlessG, runPre, takeRun, rangeG]
+  by_cases h : (o.isInf d && o.lt o.zero d) = true
+  · simp [h]
+  · simp only [h]
+    cases o.trunc (o.add o.half d) with
+    | error x => rfl
+    | ok k => simp [map_const_range, Nat.min_comm]
+
+theorem gen_ones (o : NumOps α) (dur : Option α) (n : Nat) :
+    ALV.Gen.C19.ones o dur n = constG o o.one dur n := by
+  rcases dur with _ | d
+  · simp [ALV.Gen.C19.ones, constG, takeRun]
+  · simp only [ALV.Gen.C19.ones, gen_const_some]
+
+theorem gen_zeros (o : NumOps α) (dur : Option α) (n : Nat) :
+    ALV.Gen.C19.zeros o dur n = constG o o.zero dur n := by
+  rcases dur with _ | d
+  · simp [ALV.Gen.C19.zeros, constG, takeRun]
+  · simp only [ALV.Gen.C19.zeros, gen_const_some]
+
+theorem take_cons_replicate {β : Type} (a b : β) (n : Nat) :
+    List.take n ([a] ++ List.replicate n b) = List.take n (a :: List.replicate (n - 1) b) := by
+  cases n with
+  | zero => rfl
+  | succ k => simp [List.take_replicate]
+
+theorem gen_impulse {β : Type} (o : NumOps α) (dur : Option α) (one zero : β) (n : Nat) :
+    ALV.Gen.C19.impulse o dur one zero n = impulseG o dur one zero n := by
+  rcases dur with _ | d
+  · simp only [ALV.Gen.C19.impulse, impulseG, takeRun, take_cons_replicate]
+  · simp only [ALV.Gen.C19.impulse, impulseG, endlessG, runPre, takeRun, rangeG, take_cons_replicate]
+    by_cases h : (o.isInf d && o.lt o.zero d) = true
+    · simp only [h, if_true]
+    · simp only [h]
+      by_cases h2 : o.le o.half d = true
+      · simp only [h2, if_true]
+        cases o.trunc (o.sub d o.half) with
+        | error x => rfl
+        | ok k => simp [map_const_range]
+      · simp [h2]
+
 /-! ### today's code against the models of the code before the repairs D28 / D23 -/
 
 /-- where `int(modulo / step)` raises nothing (every exact number type; binary64 unless the quotient
